@@ -311,9 +311,13 @@ class RSocketBase(RSocket, RSocketInternal):
         await self._handler.on_connection_error(self, exception)
 
     async def _on_connection_closed(self):
-        self.stop_all_streams()
-        await self._handler.on_close(self)
-        await self._stop_tasks()
+        try:
+            self.stop_all_streams()
+        finally:
+            try:
+                await self._handler.on_close(self)
+            finally:
+                await self._stop_tasks()
 
     @abc.abstractmethod
     def is_server_alive(self) -> bool:
